@@ -665,10 +665,21 @@ def run_history(case, ctx):
             pick = [keys[rng.randint(len(keys))]] if op == "set1" else [
                 keys[i] for i in sorted(set(rng.randint(len(keys), size=3).tolist()))]
             upd = {}
+            pmap_ = PREFIX.get(spec.name, {})
+
+            def _owner(key):
+                # the component a prefixed key (c_verbose -> clus) belongs to, or None
+                for comp, pre in pmap_.items():
+                    if key.startswith(pre):
+                        return comp
+                return None
+
             for k in pick:
-                # do not combine a container with its own nested keys in one call
+                # do not combine a container with its own nested keys in one call (the keys advertised for the current
+                # component need not exist on the one that replaces it)
                 if any(k.startswith(o + "__") or o.startswith(k + "__") or
-                       (k.split("_")[0] == o and o != k) or (o.split("_")[0] == k and o != k) for o in upd):
+                       (k.split("_")[0] == o and o != k) or (o.split("_")[0] == k and o != k) or
+                       _owner(k) == o or _owner(o) == k for o in upd):
                     continue
                 v, ok = alt_value(spec, k, shadow[k], rng, est)
                 if ok:
